@@ -86,3 +86,48 @@ func Harness_C19_queryById() {
 		verifAssert(it.NextBytes() == nil, "exactly one row for one id")
 	}
 }
+
+// C19: a NULL column is left out of the row, wherever it stands in the select list.
+func Harness_C19_queryNullFirstColumn() {
+	inMemory := verifChoose("mem", 2) == 0
+	env := verifWorld(inMemory, 2, 2)
+	c := env.colls[0]
+	it, err := c.Query(sgbucket.SQLiteLanguage, `SELECT xattrs, id FROM $_keyspace`, nil, sgbucket.RequestPlus, true)
+	verifAssert(err == nil, "query succeeds")
+	if err != nil {
+		return
+	}
+	var rows [][]byte
+	for i := 0; i < 5; i++ {
+		r := it.NextBytes()
+		if r == nil {
+			break
+		}
+		rows = append(rows, r)
+	}
+	verifAssert(it.Close() == nil, "iterator closes cleanly")
+	var live []bool
+	var want [][]byte
+	for i := 0; i < verifDocSlots(env.db); i++ {
+		d := verifDocSlot(env.db, i)
+		live = append(live, verifAnd(d.Present, d.Coll == 1, d.Value != nil))
+		r := []byte(`{`)
+		if d.Xattrs != nil {
+			r = verifConcat(verifConcat(r, []byte(`"xattrs":`)), d.Xattrs)
+			r = verifConcat(r, []byte(`,`))
+		}
+		r = verifConcat(verifConcat(r, []byte(`"id":`)), []byte(d.Key))
+		want = append(want, verifConcat(r, []byte(`}`)))
+	}
+	verifAssert(len(rows) == verifCount(live...), "one row per live document of this collection")
+	for _, r := range rows {
+		m := false
+		for i := range want {
+			m = verifOr(m, verifAnd(live[i], verifBytesEq(r, want[i])))
+		}
+		verifAssert(m, "each row holds exactly the non-NULL columns of a live document")
+	}
+	if len(rows) > 0 {
+		verifReach("rows")
+	}
+}
